@@ -1,0 +1,91 @@
+//go:build verif
+
+// Package verifhook exposes a few internal functions to the external
+// verification harness. It is compiled only with `-tags verif`.
+package verifhook
+
+import (
+	"fmt"
+	"strings"
+
+	"github.com/aml-org/amf-custom-validator/internal/parser/path"
+	"github.com/aml-org/amf-custom-validator/internal/parser/profile"
+	"github.com/aml-org/amf-custom-validator/internal/validator"
+)
+
+// GenerateRego returns the Rego module text generated for a profile.
+func GenerateRego(profileText string) (code string, err error) {
+	defer func() {
+		if r := recover(); r != nil {
+			err = fmt.Errorf("panic: %v", r)
+		}
+	}()
+	unit, err := validator.GenerateRego(profileText, false, nil)
+	if err != nil {
+		return "", err
+	}
+	return unit.Code, nil
+}
+
+// NormalizeInput returns the encoded normalised input, as `acv normalize` prints it.
+func NormalizeInput(data string) (out string, err error) {
+	defer func() {
+		if r := recover(); r != nil {
+			err = fmt.Errorf("panic: %v", r)
+		}
+	}()
+	res, err := validator.ProcessInput(data, false, nil)
+	if err != nil {
+		return "", err
+	}
+	return validator.Encode(res), nil
+}
+
+// PathStructure parses a property path and renders its structure as an S-expression.
+func PathStructure(source string) (sexpr string, err error) {
+	defer func() {
+		if r := recover(); r != nil {
+			err = fmt.Errorf("panic: %v", r)
+		}
+	}()
+	p, err := path.ParsePath(source)
+	if err != nil {
+		return "", err
+	}
+	return render(p), nil
+}
+
+func render(p path.PropertyPath) string {
+	switch v := p.(type) {
+	case path.Property:
+		s := v.Iri
+		if v.Inverse {
+			s += "^"
+		}
+		if v.Transitive {
+			s += "*"
+		}
+		return s
+	case path.AndPath:
+		parts := make([]string, len(v.And))
+		for i, e := range v.And {
+			parts[i] = render(e)
+		}
+		return "(seq " + strings.Join(parts, " ") + ")"
+	case path.OrPath:
+		parts := make([]string, len(v.Or))
+		for i, e := range v.Or {
+			parts[i] = render(e)
+		}
+		return "(alt " + strings.Join(parts, " ") + ")"
+	case path.NullPath:
+		return "(null)"
+	default:
+		return fmt.Sprintf("(unknown %T)", p)
+	}
+}
+
+// GenReset resets the package-level name counter of the generator.
+func GenReset() {
+	profile.GenReset()
+}
